@@ -190,6 +190,18 @@ PROPS = {
                     thorough={"steps": 2000000}),
         assumptions=["red-zone sanitizers miss non-adjacent overflows; user storage is therefore exact-size and the model compares every buffer with its image after each step"],
     ),
+    "C19": dict(
+        harness="h_cache", sources=["cache/main.cpp", "cache/cache_shared.cpp", "cache/cache_tls.cpp"], with_lib=False, level="exploration", exhaustive=True,
+        variants=dict(quick=[V("plain", 16)], thorough=[V("plain", 16), V("opt", 16)]),
+        rule="shared variant (Cache.h compiled without SQUIDS_THREAD_LOCAL): for capacity 1..3 (thorough 1..4), prefill 0 or full, every unordered pair of programs over {insert,fetch} with up to 3 (4) "
+             "operations per thread and every triple with up to 2 (3): depth-first enumeration of ALL schedules at hook granularity (every atomic load/CAS, the payload write and the payload read) with "
+             "at most 2 (3) pre-emptions; values are unique ids, judged by conservation over the client-side history plus the final drain. Plus random longer programs under PCT schedules and "
+             "8-thread real-thread stress runs with random yields at the hooks. Both variants: all insert/fetch sequences up to length 12 (14) for capacity 1..4 against a bounded LIFO model. "
+             "distinct_nontrivial = distinct configurations; distinct schedules and final configurations are reported as counters.",
+        floors=dict(quick={"executions.enumerated": 200000, "distinct_schedules": 100000, "sequential.shared": 30000, "sequential.thread_local": 30000, "executions.pct": 5000, "operations.stress": 5000000, "configs.exhausted_within_bound": 800},
+                    thorough={"executions.enumerated": 5000000}),
+        assumptions=["schedules are enumerated at hook granularity on x86-TSO; weaker-memory reorderings are not explored", "data races in the C++ memory-model sense on the `next` fields are not judged (the algorithm validates optimistic reads by CAS)"],
+    ),
 }
 
 
@@ -266,3 +278,14 @@ for _k, (_lt, _ln, _te) in _T2.items():
         PROPS[_k]["level_text"] = _lt; PROPS[_k]["level_note"] = _ln; PROPS[_k]["technique"] = _te
         PROPS[_k]["design_ref"] = "DESIGN.md section 6 (" + _k + ")"
 ENGINE_TEXT["h_life"] = "C++ harness linked with an allocation ledger / fault injector interposed on operator new/delete: history interpreter with shadow ownership model (C08, C15), exhaustive mismatch table (C14), fault enumeration (C16), fused-vs-naive differential (C09)"
+
+_T3 = {
+    "C19": ("Bounded-exhaustive schedule enumeration on the real cache code under a cooperative scheduler (all schedules with <=2/3 pre-emptions for all 2-3 thread programs up to 3/4 operations, capacities 1..4), randomised PCT schedules for longer programs, hardware stress, and exhaustive sequential histories for both variants.",
+            "Trusted: the scheduler hands control only at the hook points, which bracket every shared access of the algorithm; x86-TSO; unique ids make the history unambiguous.",
+            "runtime monitoring: deterministic scheduler over real threads (DFS with pre-emption bound + PCT), conservation checker over unique-id histories, bounded-LIFO reference model"),
+}
+for _k, (_lt, _ln, _te) in _T3.items():
+    if _k in PROPS:
+        PROPS[_k]["level_text"] = _lt; PROPS[_k]["level_note"] = _ln; PROPS[_k]["technique"] = _te
+        PROPS[_k]["design_ref"] = "DESIGN.md section 7 (" + _k + ")"
+ENGINE_TEXT["h_cache"] = "C++ harness: cooperative deterministic scheduler driving real threads through hook points of Cache.h (shared variant), conservation checker; sequential LIFO model for both variants"
